@@ -159,8 +159,8 @@ def nontrivial(ans):
     dropped = False
     for a in ans:
         if " | " in a:
-            head, tail = a.split(" | ")
-            sizes.add(tail.split()[0])
+            head, tail = a.split(" | ", 1)
+            sizes.add((tail.split() or ["?"])[0])
             h = head.split()
             if len(h) == 2 and h[1].isdigit() and int(h[1]) > 0 and h[0].lstrip("-").isdigit():
                 dropped = True
@@ -190,15 +190,29 @@ def run(ctx):
             flavours.append((exe, name, meta))
         nseq = 500 if ctx.quick() else 12000
         corpus = load_corpus()
+        replay_seq = None
+        if getattr(ctx, "replay", None):
+            import json
+            rj = json.load(open(ctx.replay))
+            rc = rj.get("case")
+            if rc is None:
+                ctx.log("replay file records a broken theorem/correspondence, not an input: running the normal check")
+            else:
+                replay_seq = rc["ops"] if isinstance(rc, dict) else rc
+                nseq, corpus = 0, []
         dist = {"ops": 0, "grow_or_overwrite": 0, "shapes": {}, "crash": 0}
         distinct = set()
         for exe, name, meta in flavours:
             seqs = [[l.replace("META", str(meta)) for l in s] for s in corpus]
+            if replay_seq:
+                # a replay re-runs exactly the recorded op sequence (create line re-targeted to this flavour)
+                first = replay_seq[0].split()
+                seqs.append([" ".join(first[:3] + [str(meta)])] + list(replay_seq[1:]))
             for i in range(nseq):
                 shape = rng.choices(["tiny", "fixed", "chunk", "prod"], [50, 15, 25, 10])[0]
                 dist["shapes"][shape] = dist["shapes"].get(shape, 0) + 1
                 seqs.append(gen_seq(rng, meta, rng.randrange(4, 40 if shape != "prod" else 14), shape))
-            if ctx.tier == "thorough" and name.startswith("assert"):
+            if ctx.tier == "thorough" and name.startswith("assert") and not replay_seq:
                 seqs += exhaustive_small(meta)
             impl = run_batch([exe], seqs, env=dict(os.environ, ASAN_OPTIONS="detect_leaks=0"))
             text = "".join(l + "\n" for s in seqs for l in s)
@@ -280,9 +294,12 @@ def annotate(seqs, answers):
             a = ans[i] if i < len(ans) else ""
             ret, size = "0", "0"
             if " | " in a:
-                head, tail = a.split(" | ")
+                # a crash (assertion abort) can leave a truncated last answer line
+                head, tail = a.split(" | ", 1)
                 ret = (head.split() or ["0"])[0]
-                size = tail.split()[0]
+                size = (tail.split() or ["0"])[0]
+                if not size.isdigit():
+                    size = "0"
             out.append("%s @ %s %s\n" % (l, ret if ret.lstrip("-").isdigit() else "0", size))
     return "".join(out)
 
